@@ -10,6 +10,7 @@ CONSTANTS
   PoolChoices = {1,2}
   CollapseCrash = TRUE
   Admissible = FALSE
+  CrossPipe = FALSE
 INVARIANT C01_ParentsDone
 INVARIANT C02_OneLiveContainer
 INVARIANT C02_StatesMatchContainers
